@@ -15,7 +15,7 @@ open Verif.Py
 abbrev Row := List Nat
 
 inductive Err
-  | indexError | itsdbError | valueError | notImplemented | keyError
+  | indexError | itsdbError | valueError | notImplemented | keyError | assertionError | unmodelled
 deriving DecidableEq, Repr
 
 /-- `itsdb.Table`: `_rows` (`none` = "the file line at this position"), `_persistent_count`,
